@@ -28,7 +28,9 @@ Lemma facts_state_predicates :
   opt_is f_service_ok_state (fun v => forall s, is_ok KService s = (sstate_num s =? v)).
 Proof.
   split; [|split].
-  - intros s; destruct s; simpl; auto 6.
+  - unfold opt_is. destruct f_calculate_state as [t|] eqn:E; [|exact I].
+    vm_compute in E. first [discriminate E | injection E as <-; intros s; destruct s; simpl; auto 6].
   - intros _ s; reflexivity.
-  - intros s; destruct s; reflexivity.
+  - unfold opt_is. destruct f_service_ok_state as [v|] eqn:E; [|exact I].
+    vm_compute in E. first [discriminate E | injection E as <-; intros s; destruct s; reflexivity].
 Qed.
